@@ -88,7 +88,8 @@
 size_t stun_usage_bind_create (StunAgent *agent, StunMessage *msg,
     uint8_t *buffer, size_t buffer_len)
 {
-  stun_agent_init_request (agent, msg, buffer, buffer_len, STUN_BINDING);
+  if (!stun_agent_init_request (agent, msg, buffer, buffer_len, STUN_BINDING))
+    return 0;
 
   return stun_agent_finish_message (agent, msg, NULL, 0);
 }
@@ -192,8 +193,9 @@ stun_usage_bind_keepalive (StunAgent *agent, StunMessage *msg,
     uint8_t *buf, size_t len)
 {
 
-  stun_agent_init_indication (agent, msg,
-      buf, len, STUN_BINDING);
+  if (!stun_agent_init_indication (agent, msg,
+          buf, len, STUN_BINDING))
+    return 0;
   return stun_agent_finish_message (agent, msg, NULL, 0);
 }
 
